@@ -117,7 +117,13 @@ impl<'a> GenLin<'a> {
                 let nargs = if x == 0 {
                     self.c.weighted(&[30, 40, 20, 10])
                 } else if self.c.prob(50) {
-                    4 + self.c.choose(self.cfg.max_fields.saturating_sub(3).max(1))
+                    if self.cfg.max_fields > 8 && self.c.prob(110) {
+                        // as many parameters as the widest register file: the value (closure or
+                        // scrutinee) behind them sits in a spill position at an invoke
+                        self.cfg.max_fields - self.c.choose(4)
+                    } else {
+                        4 + self.c.choose(self.cfg.max_fields.saturating_sub(3).max(1))
+                    }
                 } else {
                     self.c.weighted(&[20, 35, 30, 15])
                 };
